@@ -572,22 +572,48 @@ def part_accepted_compiles(chk, thorough):
                 ("AsRef", "#[as_ref($t1)] struct S($t1);"), ("AsRef", "#[as_ref($t1)] struct S(%s);" % _C1), ("AsMut", "#[as_mut($t1)] struct S(%s);" % _C1),
                 ("From", "enum S { #[from($t1)] A(%s), B($t2) }" % _C1), ("Constructor", "struct S { a: $t1, b: $t3 }"), ("TryFrom", "#[try_from(repr)] #[repr(u8)] enum S { A = 1, B($t1) }"),
                 ("Error", "#[derive(Debug, derive_more::Display)] #[display(\"e\")] struct S { source: $t1, other: $t2 }"), ("Display", "#[display(\"{_0} {_1}\")] struct S($t1, $t2);"),
-                ("Debug", "struct S<T>($t1, T);"), ("Deref", "struct S { #[deref] a: $t1, b: $t2 }"), ("IntoIterator", "struct S(#[into_iterator(owned, ref)] $t1, $t2);")]
+                ("Debug", "struct S<T>($t1, T);"), ("Deref", "struct S { #[deref] a: $t1, b: $t2 }"), ("IntoIterator", "struct S(#[into_iterator(owned, ref)] $t1, $t2);"),
+                # a fragment inside a larger type or expression: an `$e:expr` operand of an array length, a `$t:ty` generic argument, a
+                # trait object (one bound / several bounds) and a type parameter arriving as `$t:ty`
+                ("TryInto", "enum S { A(Vec<$t1>), B(Vec<%s>), Cc }" % _C1), ("TryInto", "#[try_into(owned, ref, ref_mut)] enum S { A(Option<$t1>, $t2), B(Option<%s>, %s) }" % (_C1, _C2)),
+                ("AsRef", "struct S($d1);"), ("AsMut", "struct S($d1);"), ("AsRef", "struct S($d);"), ("AsMut", "struct S($d);"), ("AsRef", "struct S { a: u8, #[as_ref] b: $d }"),
+                ("Into", "#[into(ref, ref_mut)] struct S($d);"), ("Into", "#[into(ref)] struct S(Box<$d>, $t1);"), ("From", "struct S(Box<$d>);"), ("Deref", "struct S(Box<$d>);"),
+                ("AsRef", "struct S<T>(#[as_ref(T)] $tp);"), ("AsMut", "struct S<T>(#[as_mut(T)] $tp);"), ("AsRef", "struct S<T>(#[as_ref(Vec<T>)] Vec<$tp>);"),
+                ("From", "#[from(Vec<$t1>)] struct S(Vec<%s>);" % _C1), ("Into", "#[into(Vec<$t1>)] struct S(Vec<%s>);" % _C1), ("AsRef", "#[as_ref(Vec<$t1>)] struct S(Vec<%s>);" % _C1),
+                ("Display", "#[display(\"{} {}\", $e, 2 * $e)] struct S;"), ("Debug", "#[debug(\"{} {a}\", $e, a = -$e)] struct S;"), ("Display", "enum S { #[display(\"{}\", $e)] A, #[display(\"{}\", 7 - $e)] B }"),
+                ("TryFrom", "#[try_from(repr)] #[repr(u8)] enum S { A = $e, B = 2 * $e }"), ("TryFrom", "#[try_from(repr)] enum S { A = $e, B, Cc = 7 - $e }"), ("From", "struct S([u8; $e]);"),
+                ] + [(d, it) for it in ("struct S([u8; 2 * $e]);", "struct S { a: [u8; 7 - $e], b: u8 }", "enum S { A([u8; 2 * $e]), B }", "struct S(H<(), { 2 * $e }>);")
+                     for d in ("From", "Into", "AsRef", "Deref", "DerefMut", "Constructor", "Debug", "TryInto", "Unwrap", "IsVariant", "Index", "IntoIterator")]
     def macro_twin(cid, d, prefix, item):
         body = "%s#[derive(derive_more::%s)] %s" % (prefix, d, item)
-        mod = "#[allow(unused_imports)] use super::*;\nmacro_rules! mk { ($t1:ty, $t2:ty, $t3:ty) => { %s } }\nmk!(%s, %s, (%s, %s));" % (body, _C1, _C2, _C1, _C2)
-        return Case(cid, mod, has_run=False, meta=dict(derive=d, src="macro_rules! mk { ($t1:ty, $t2:ty, $t3:ty) => { %s } } mk!(%s, %s, (%s, %s));" % (body, _C1, _C2, _C1, _C2)))
+        pars = "$t1:ty, $t2:ty, $t3:ty, $e:expr, $d1:ty, $d:ty, $tp:ty"
+        args = "%s, %s, (%s, %s), 1 + 1, dyn ::core::fmt::Debug, dyn ::core::fmt::Debug + Send, T" % (_C1, _C2, _C1, _C2)
+        mod = "#[allow(unused_imports)] use super::*;\nmacro_rules! mk { (%s) => { %s } }\nmk!(%s);" % (pars, body, args)
+        return Case(cid, mod, has_run=False, meta=dict(derive=d, src="macro_rules! mk { (%s) => { %s } } mk!(%s);" % (pars, body, args)))
     for c in cases:
         if results[c.cid].compile == "ok" and (_C1 in c.meta["twin"] or _C2 in c.meta["twin"]) and "decorate" not in c.meta:
             item = c.meta["twin"].replace(_C1, "$t1").replace(_C2, "$t2")
             mcases.append(macro_twin("m%d" % len(mcases), c.meta["derive"], PREREQ.get(c.meta["derive"], ""), item))
+    # the hand-placed ones: their directly written twin (fragments substituted as text, an expression in parentheses) is compiled
+    # along; only where THAT compiles is the macro-generated one judged
+    subst = [("$t1", _C1), ("$t2", _C2), ("$t3", "(%s, %s)" % (_C1, _C2)), ("$e", "(1 + 1)"), ("$d1", "dyn ::core::fmt::Debug"), ("$d", "dyn ::core::fmt::Debug + Send"), ("$tp", "T")]
+    direct = {}
     for d, item in specials:
-        mcases.append(macro_twin("m%d" % len(mcases), d, "", item))
+        m = macro_twin("m%d" % len(mcases), d, PREREQ.get(d, ""), item)
+        mcases.append(m)
+        txt = item
+        for a, b in subst:
+            txt = re.sub(re.escape(a) + r"\b", lambda _m: b, txt)
+        txt = re.sub(r"&\s*(mut\s+)?dyn ::core::fmt::Debug \+ Send", lambda mm: "&%s(dyn ::core::fmt::Debug + Send)" % (mm.group(1) or ""), txt)
+        direct[m.cid] = Case("d" + m.cid, "#[allow(unused_imports)] use super::*;\n%s#[derive(derive_more::%s)] %s" % (PREREQ.get(d, ""), d, txt), has_run=False)
     meng = CompileEngine("C01M", header=HEADER, prelude=PRELUDE, mode="check", per_bin=max(20, len(mcases) // 16 + 1))
-    mres = meng.run_cases(mcases)
+    mres = meng.run_cases(mcases + list(direct.values()))
     for c in mcases:
         r = mres[c.cid]
         chk.count(states=1, transitions=1)
+        if c.cid in direct and mres[direct[c.cid].cid].compile != "ok":
+            chk.outcome("macro-generated-twin-skipped-direct-form-%s" % mres[direct[c.cid].cid].compile)
+            continue
         if r.compile == "ok":
             chk.outcome("macro-generated-twin-compiles")
             continue
